@@ -248,6 +248,8 @@ def spell_valued(name, short, v, rng):
 
 def random_decl(rng, small=True):
     names = ["a", "b", "ab", "out", "no-a", "x-y", "verbose", "n"]
+    if rng.random() < 0.1:
+        names = ["c--no-s", "no-", "a--no-", "out", "x--no-x", "n"]      # the reversal prefix again INSIDE a name
     letters = ["a", "b", "o", "v", "n", "x"]
     r0 = rng.random()
     if rng.random() < 0.15:
